@@ -54,3 +54,4 @@ Inductive add_failure_form :=
 Inductive find_semgrep_form := OneRunAllRules.
 Inductive semgrep_scope_form := PrefilterFilesOrDirectory.   (* files_for_rule(id) if a prefilter exists else [] (-> the directory) *)
 Inductive semgrep_detector_form := ScanPrefilterFiles.
+Inductive write_sites_form := OnlyKnownWriteSites.   (* no write-capable call outside the three pipelines, the four writers, the report, temp files *)
